@@ -11,7 +11,7 @@ ENGINES = [
   {'name': 'E-RX', 'path': 'engines/rx_main.cpp', 'serves_properties': ['C03', 'C04', 'C10', 'C12', 'C17'],
   'kind_free_text': 'explicit-state exploration: enumerates pattern ASTs / term sets / pattern strings inside stated bounds, drives the real regex front-end, dfa_builder and lexer loop, and explores the emitted automaton together with a reference automaton (reachable state pairs x all 256 bytes)'},
   {'name': 'E-SCALE', 'path': 'engines/scale_main.hpp', 'serves_properties': ['C01', 'C05', 'C08', 'C09', 'C11', 'C12'],
-  'kind_free_text': 'generated DSL parsers (gen/scale_gen.py) for grammar families at sizes the injection frames cannot reach (62-200 terminals, 254-300 rules, 64-130 nonterminals, right sides of 10-66 symbols, precedence values up to INT_MIN/INT_MAX); per instance every state, table cell and diagnostics line is compared with a dynamically sized reference LR(1) (ref/lr1_dyn.hpp) and every input of a bounded set is parsed against the documented driver; sizes are sampled (one-dimensional sweep), the comparison inside an instance is exhaustive'},
+  'kind_free_text': 'generated DSL parsers (gen/scale_gen.py) for grammar families at sizes the injection frames cannot reach (62-200 terminals, 254-300 rules, 64-130 nonterminals, right sides of 10-66 symbols, precedence values up to INT_MIN/INT_MAX, nullable unit chains of depth 6-100); per instance every state, table cell and diagnostics line is compared with a dynamically sized reference LR(1) (ref/lr1_dyn.hpp) and every input of a bounded set is parsed against the documented driver; sizes are sampled (one-dimensional sweep), the comparison inside an instance is exhaustive'},
  {'name': 'E-IN/E-CT', 'path': 'progs/', 'serves_properties': ['C06', 'C07', 'C12', 'C13', 'C14', 'C19'],
   'kind_free_text': 'compiled black-box programs (no guard, no private access) that enumerate a finite configuration x input space completely and check invariants on every execution; built with g++ and clang++'},
   {'name': 'E-SCHED', 'path': 'progs/c15_sched.cpp', 'serves_properties': ['C15'],
